@@ -4,6 +4,7 @@ CONSTANTS
   FaultKinds = {}
   SyntaxKinds = {"int-range"}
   MaxFaults = 0
+  LexicalChecked = TRUE
 INVARIANTS StrictParse StrictKept StrictGate
 POSTCONDITION AllConsumed
 CHECK_DEADLOCK FALSE
